@@ -82,6 +82,8 @@ func GenFlow(rng *rand.Rand, o GenOpts) *FlowP {
 		f.EmitShared = rng.Intn(3) == 0
 		if rng.Intn(5) == 0 {
 			f.Emitters, f.EmitNest, f.EmitSlice = 2, false, true
+		} else if f.Emitters >= 2 && !f.EmitNest && rng.Intn(3) == 0 {
+			f.EmitNext = true
 		}
 	}
 	for id := 0; id < nT; id++ {
@@ -174,14 +176,20 @@ func GenFlow(rng *rand.Rand, o GenOpts) *FlowP {
 			t.Form = FormAux
 			t.Ctx = true
 		}
-		if f.Emitters > 0 && rng.Intn(10) < 6 && !o.AutoInstr {
-			t.Instr = true
+		if f.Emitters > 0 && rng.Intn(10) < 6 && !o.AutoInstr && !o.Modifier {
+			t.Instr = true // (modifier mode leaves a task-level cff.Instrument unexpanded: not drawn there)
 		}
 		for k := 0; k < nout; k++ {
 			ty := newType()
 			if isAux {
 				if nOther < NumOther && rng.Intn(10) < 7 {
 					x := rng.Intn(NumOther)
+					// namesakes: other.X0 and other2.X0 in one flow, now and then
+					if usedOther[0] && !usedOther[12] && rng.Intn(2) == 0 {
+						x = 12
+					} else if usedOther[12] && !usedOther[0] && rng.Intn(2) == 0 {
+						x = 0
+					}
 					for usedOther[x] {
 						x = (x + 1) % NumOther
 					}
@@ -281,6 +289,8 @@ func GenPar(rng *rand.Rand, o GenOpts) *ParP {
 		p.EmitShared = rng.Intn(3) == 0
 		if rng.Intn(5) == 0 {
 			p.Emitters, p.EmitNest, p.EmitSlice = 2, false, true
+		} else if p.Emitters >= 2 && !p.EmitNest && rng.Intn(3) == 0 {
+			p.EmitNext = true
 		}
 	}
 	switch rng.Intn(5) {
